@@ -146,7 +146,7 @@ def proof_step(pid, tier, log):
 
 # ------------------------------------------------------------------ harness
 
-def build_harness(binname, log, features=None, toolchain=None):
+def build_harness(binname, log, features=None, toolchain=None, nightly=False):
     bins = {}
     for prof, flag, sub in (("dbg", [], "debug"), ("rel", ["--profile", "rel"], "rel")):
         cmd = ["cargo"] + ([toolchain] if toolchain else []) + ["build", "--offline", "--bin", binname] + flag
@@ -158,6 +158,16 @@ def build_harness(binname, log, features=None, toolchain=None):
         if rc != 0:
             return None, "harness build failed (%s): %s" % (prof, (errs or err)[-1500:])
         bins[prof] = os.path.join(HARNESS, "target", sub, binname)
+    if nightly:
+        # methods gated behind bnum's `nightly` feature (to_*_bytes / from_*_bytes): separate toolchain + target dir
+        cmd = ["cargo", "+nightly", "build", "--offline", "--bin", binname, "--features", "nightly" + ("," + features if features else ""),
+               "--target-dir", os.path.join(HARNESS, "target", "nightly")]
+        rc, out, err = run(cmd, cwd=HARNESS, env=env_offline(), timeout=3600)
+        errs = "\n".join(l for l in err.split("\n") if l.startswith("error") or "panicked" in l)
+        log.append((" ".join(cmd), rc, errs[-2000:]))
+        if rc != 0:
+            return None, "harness build failed (nightly): %s" % ((errs or err)[-1500:])
+        bins["nightly"] = os.path.join(HARNESS, "target", "nightly", "debug", binname)
     return bins, None
 
 
@@ -268,7 +278,7 @@ def main():
         extra_problems += mod.pre(ctx) or []
 
     # 3. harness
-    bins, herr = build_harness(binname, log, features=getattr(mod, "FEATURES", None))
+    bins, herr = build_harness(binname, log, features=getattr(mod, "FEATURES", None), nightly=getattr(mod, "NIGHTLY", False))
     driver = os.path.join(LEAN, ".lake", "build", "bin", "bnum_driver")
     if not os.path.exists(driver):
         print("internal error: bnum_driver not built\n" + "\n".join(str(x) for x in log[-3:]))
